@@ -14,13 +14,19 @@ type ReadFS struct {
 func (r *ReadFS) OpenFile(path string, flag experimentalsys.Oflag, perm fs.FileMode) (experimentalsys.File, experimentalsys.Errno) {
 	// Mask the mutually exclusive bits as they determine write mode.
 	switch flag & (experimentalsys.O_RDONLY | experimentalsys.O_WRONLY | experimentalsys.O_RDWR) {
-	case experimentalsys.O_WRONLY, experimentalsys.O_RDWR:
+	case experimentalsys.O_RDONLY: // integer zero, so we are ok!
+	default: // sys.O_WRONLY, sys.O_RDWR or both bits
 		// Return the correct error if a directory was opened for write.
 		if flag&experimentalsys.O_DIRECTORY != 0 {
 			return nil, experimentalsys.EISDIR
 		}
 		return nil, experimentalsys.ENOSYS
-	default: // sys.O_RDONLY (integer zero) so we are ok!
+	}
+
+	// O_CREAT and O_TRUNC modify the file system even when the access mode
+	// is read-only, so they can't be forwarded either.
+	if flag&(experimentalsys.O_CREAT|experimentalsys.O_TRUNC) != 0 {
+		return nil, experimentalsys.EROFS
 	}
 
 	f, errno := r.FS.OpenFile(path, flag, perm)
